@@ -41,6 +41,16 @@ CLAIMS = {
         ),
         design_ref="DESIGN.md §4 C04",
     ),
+    "C17": dict(
+        technique="static analysis: table agreement between dataclass fields, optional-field tables, deserializer key reads and JSON schemas; schema well-formedness walk; whole-program scan for class-level shared state",
+        text=(
+            "Decides the structural necessary conditions of the round-trip for devices, channels, EOM, noise models, observables and results: declared fields = emitted keys = schema properties, "
+            "required = always emitted, every elidable field has a default, decoder tables (basis->class, observable tag->class) agree with the writers, NoiseModel parameter tables partition the fields, "
+            "NoiseModel<->SimConfig name mapping is total and the unit conversion is paired; in all 7 schema files required is a subset of properties; and no method assigns a class attribute, mutates a "
+            "class-level mutable or writes through a mutable default argument ('objects never share state'). Equality of decoded objects is runtime and is not decided."
+        ),
+        design_ref="DESIGN.md §4 C17",
+    ),
     "C09": dict(
         technique="static analysis: interprocedural write-effect and escaping-raise summaries (ast CFG + call graph with decorator composition), validate-before-mutate ordering rule, read-only effect rule",
         text=(
